@@ -10,6 +10,13 @@ def run(ctx):
         ("reorder-3x1", ["-random", n(1500, 12000), "-nodes", "3", "-numconns", "1", "-clients", "8", "-workers", "8", "-round", n(750, 3000), "-delay", "8", "-okbias", "6"], False),
         ("reorder-2x2", ["-random", n(1000, 8000), "-nodes", "2", "-numconns", "2", "-clients", "6", "-workers", "8", "-round", n(500, 2000), "-delay", "8", "-okbias", "6"], False),
         ("reorder-drops-3x1", ["-random", n(600, 4000), "-nodes", "3", "-numconns", "1", "-clients", "6", "-workers", "6", "-round", "300", "-delay", "5", "-droprate", "0.4", "-okbias", "4"], False),
+        # volume: one connection, > 2048 requests outstanding at once (every backend stream id in use, exhaustion crossed),
+        # one heartbeat answered after the proxy gave up on it
+        ("volume-stall-1x1", ["-random", n(2150, 2300), "-nodes", "1", "-numconns", "1", "-clients", "3", "-workers", n(717, 767), "-round", "2400",
+                              "-stall", "2200", "-hold", "2600", "-okbias", "8", "-nodrops"], False),
+        # every write is re-encoded by the consistency override: pipelined and retried requests must still carry their own bodies
+        ("override-3x1", ["-random", n(600, 4000), "-nodes", "3", "-numconns", "1", "-clients", "4", "-workers", "8", "-round", "300", "-delay", "4",
+                          "-override", "-okbias", "2", "-nodrops"], False),
         ("scripted-3x1", ["-nodes", "3", "-numconns", "1", "-clients", "4", "-workers", "4", "-round", "160"], True),
     ]
     rf.run_property(ctx, "C02", plans, nscen=300)
